@@ -1,6 +1,7 @@
 #!/usr/bin/env python3
 """seeded_run.py <seeded-dir-name> [--tier quick|thorough] [--also Cxx ...]
-Apply /verif/seeded/<name>/patch.diff to /repo, run ./check for the property it
+Apply /verif/seeded/<name>/patch.diff to a scratch worktree of /repo (SEED_WT, default /tmp/seedwt;
+checks run with VERIF_REPO=<worktree> VERIF_BUILD=/verif/_build/mut, i.e. exactly as on /repo but isolated), run ./check for the property it
 breaks (plus --also), record the outcome in seeded/<name>/detection.json, and
 ALWAYS restore /repo (git checkout -- .) afterwards."""
 import json, os, re, subprocess, sys, time
@@ -16,17 +17,19 @@ while a:
 d = os.path.join(V, "seeded", name)
 meta = json.load(open(os.path.join(d, "meta.json")))
 pid = meta.get("breaks_property") or name.split("-")[0]
-st = subprocess.run(["git", "-C", "/repo", "status", "--porcelain", "--untracked-files=no"], capture_output=True, text=True).stdout
+WT = os.environ.get("SEED_WT", "/tmp/seedwt")
+ENV = dict(os.environ, VERIF_REPO=WT, VERIF_BUILD=os.path.join(V, "_build", "mut"))
+st = subprocess.run(["git", "-C", WT, "status", "--porcelain", "--untracked-files=no"], capture_output=True, text=True).stdout
 if st.strip():
-    print("refusing: /repo has local changes:\n" + st); sys.exit(2)
+    print("refusing: worktree has local changes:\n" + st); sys.exit(2)
 res = {"patch": name, "tier": tier, "checks": {}}
 try:
-    r = subprocess.run(["git", "-C", "/repo", "apply", os.path.join(d, "patch.diff")], capture_output=True, text=True)
+    r = subprocess.run(["git", "-C", WT, "apply", os.path.join(d, "patch.diff")], capture_output=True, text=True)
     if r.returncode != 0:
         print("patch does not apply:", r.stderr); res["error"] = "patch does not apply: " + r.stderr; sys.exit(3)
     for p in [pid] + also:
         t = time.time()
-        r = subprocess.run(["./check", p, "--tier", tier], cwd=V, capture_output=True, text=True, timeout=7200)
+        r = subprocess.run(["./check", p, "--tier", tier], cwd=V, capture_output=True, text=True, timeout=7200, env=ENV)
         out = r.stdout + r.stderr
         viol = re.findall(r"^VIOLATION property=\S+ replay=(\S+)(.*)$", out, flags=re.M)
         kinds = []
@@ -40,5 +43,6 @@ try:
                             "first": kinds[:6], "tail": out[-600:] if r.returncode not in (0, 1) else ""}
         print(name, p, "rc=%d violations=%d concrete=%d wall=%.0fs" % (r.returncode, len(viol), res["checks"][p]["with_concrete_input"], time.time() - t), flush=True)
 finally:
-    subprocess.run(["git", "-C", "/repo", "checkout", "--", "."])
+    subprocess.run(["git", "-C", WT, "checkout", "--", "."])
+    subprocess.run(["git", "-C", WT, "clean", "-fdq"])
     json.dump(res, open(os.path.join(d, "detection.json"), "w"), indent=1)
